@@ -354,7 +354,16 @@ func (s *c10State) sequence(sy c10Syntax, cd dcodec.Codec, i c10Info, seq [][]by
 	if sy.Lossless {
 		for k := range seq {
 			if !bytes.Equal(dec[k][:len(seq[k])], seq[k]) {
-				fail("c10-lossless-mismatch-"+sy.Name+"-"+c10BSClass(i.BS), fmt.Sprintf("lossless syntax: decoded frame %d differs from the source", k), "source bytes", "different")
+				// history-independence already holds here (every frame equals its solo run): this is the codec's own
+				// round trip failing on this content — root causes belong to C02–C06; the class names the coder
+				// family and whether the frame is at least one 64×64 code-block large
+				size := "lt4096px"
+				if i.W*i.H >= 4096 {
+					size = "ge4096px"
+				}
+				h := c10Sum(seq[k])
+				in["frame_sha256"] = fmt.Sprintf("%x", h[:8])
+				fail("c10-lossless-roundtrip-"+sy.Kind+"-"+size+"-"+c10BSClass(i.BS), fmt.Sprintf("lossless syntax %s: decoded frame %d differs from the source", sy.Name, k), "source bytes", "different")
 				return
 			}
 		}
@@ -932,6 +941,56 @@ func c10FieldFacts(c *hx.Ctx, sets []c10ParamSet, frames map[string][][]byte, st
 			return 1
 		}
 		return 0
+	}
+	// stationarity of the fields after the first call (the memo contract of the refinement theorems)
+	moved := map[string]bool{}
+	for _, ps := range sets {
+		fr, ok := frames[ps.Name]
+		if !ok || streams[ps.Name] == nil {
+			continue
+		}
+		e := jpeg2000.NewEncoder(ps.Make())
+		c10EncodeWith(e, fr[0])
+		prev := c10FieldHashes(e)
+		for _, k := range []int{1, 2, 0} {
+			c10EncodeWith(e, fr[k])
+			cur := c10FieldHashes(e)
+			for _, n := range encNames {
+				if cur[n] != prev[n] {
+					moved["encoder."+n] = true
+				}
+			}
+			prev = cur
+		}
+	}
+	for _, n1 := range names {
+		d := jpeg2000.NewDecoder()
+		if strings.HasPrefix(n1, "htj2k") {
+			d.SetBlockDecoderFactory(c10HTFactory())
+		}
+		if strings.HasPrefix(n1, "roi") {
+			// a caller-provided ROI configuration: Decode normalises it in place (ROIConfig.Validate)
+			d.SetROIConfig(&jpeg2000.ROIConfig{DefaultShift: 3, DefaultStyle: jpeg2000.ROIStyleMaxShift,
+				ROIs: []jpeg2000.ROIRegion{{ID: "a", Rect: &jpeg2000.ROIParams{X0: 2, Y0: 2, Width: 6, Height: 6}, Shift: 3}}})
+		}
+		c10DecodeWith(d, streams[n1][0])
+		prev := c10FieldHashes(d)
+		for _, k := range []int{1, 2, 0} {
+			c10DecodeWith(d, streams[n1][k])
+			cur := c10FieldHashes(d)
+			for _, n := range decNames {
+				if cur[n] != prev[n] {
+					moved["decoder."+n] = true
+				}
+			}
+			prev = cur
+		}
+	}
+	for _, n := range encNames {
+		c.Case(fmt.Sprintf("fact-field-stationary encoder %s %d", n, b(moved["encoder."+n])), "ok")
+	}
+	for _, n := range decNames {
+		c.Case(fmt.Sprintf("fact-field-stationary decoder %s %d", n, b(moved["decoder."+n])), "ok")
 	}
 	for _, n := range encNames {
 		c.Case(fmt.Sprintf("fact-field encoder %s %d %d", n, b(changed["encoder."+n]), b(sensitive["encoder."+n])), "ok")
